@@ -208,6 +208,14 @@ type Frame struct {
 	fn     *ssa.Function
 	regs   map[ssa.Value]Value
 	inLoop bool
+	// deferred calls (arguments evaluated at the defer statement), run in reverse order by RunDefers
+	defers []deferredCall
+}
+
+type deferredCall struct {
+	d    *ssa.Defer
+	args []Value
+	fnv  Value
 }
 
 func wrapInt(v *big.Int, t types.Type) *big.Int {
